@@ -772,8 +772,16 @@ func (e *Env) call(x *SExpr) Val {
 		for _, l := range lvs {
 			arrOf[l.path] = l.arr
 		}
+		// Go semantics: the zero value for an absent key
+		has := sx("select", sx("select", e.state.get(dom), v.S), ks)
+		zflat := map[string]string{}
+		fc.mapValFlatten(fc.zeroVal(mt.Elem()), "", zflat)
 		return fc.mapValBuild(mt.Elem(), "", func(path string) string {
-			return sx("select", sx("select", e.state.get(arrOf[path]), v.S), ks)
+			got := sx("select", sx("select", e.state.get(arrOf[path]), v.S), ks)
+			if z, ok := zflat[path]; ok {
+				return sIte(has, got, z)
+			}
+			return got
 		})
 	case "mapdom", "mapval":
 		// mapdom(m) / mapval(m): the key set / value table of map m as a whole (for equalities between runs)
